@@ -3,7 +3,7 @@
    Model: Model/Cursor.v (statement-level model of EntriesCursor.SkipTo: gallop + binary search,
    FieldCursor.SkipTo, NewFieldCursor, FieldCursors.Sort).  Statements only. *)
 From Coq Require Import List NArith Bool Arith Permutation Sorting.Sorted.
-From BE Require Import Model.Scan Model.Cursor Proofs.CursorProof Proofs.Refine Proofs.CursorHist Proofs.CursorGenProof.
+From BE Require Import Model.Scan Model.Cursor Proofs.CursorProof Proofs.Refine Proofs.CursorHist Proofs.CursorGenProof Proofs.SortGenProof.
 From Coq Require Import ZArith.
 Import ListNotations.
 Local Open Scope N_scope.
@@ -69,6 +69,20 @@ Theorem C12_translated_SkipTo_spec : forall l id, sortedN l -> id <= NULLENTRY -
     (id <= c_eid c -> c' = c).
 Proof. exact SkipTo_translated_spec. Qed.
 
+(* FieldCursors.Sort TRANSLATED from index_scanner.go on every run (the nested insertion loops over a slice of opaque
+   elements read through GetCurEntryID and reordered by swaps) computes the model's insertion sort, for any element
+   type and key; hence the property for the translated code: a permutation ordered by current entry, exhausted
+   cursors (the sentinel is the largest entry) last, no index out of range, 2 * length units of fuel suffice *)
+Theorem C12_translated_Sort_is_model : forall (T : Type) (key : T -> N) l fuel,
+  (2 * length l <= fuel)%nat -> (Z.of_nat (length l) < 2^60)%Z ->
+  G.FieldCursors_Sort T key fuel l = G.Ret (isort (fun x => Some (key x)) l).
+Proof. exact Sort_translated_is_model. Qed.
+Theorem C12_translated_Sort_spec : forall fs fuel, (2 * length fs <= fuel)%nat -> (Z.of_nat (length fs) < 2^60)%Z ->
+  G.FieldCursors_Sort fcursor fc_current fuel fs = G.Ret (sort_fcursors fs) /\
+  Permutation (sort_fcursors fs) fs /\
+  StronglySorted (fun a b => fc_current a <= fc_current b) (sort_fcursors fs).
+Proof. exact Sort_translated_spec. Qed.
+
 (* the model's sentinel is the constant of the current source *)
 Theorem C12_sentinel_is_generated : Cursor.NULLENTRY = BE.Gen.IdsGen.NULLENTRY.
 Proof. exact nullentry_is_generated. Qed.
@@ -91,3 +105,5 @@ Print Assumptions C12_sort.
 Print Assumptions C12_sentinel_is_generated.
 Print Assumptions C12_translated_SkipTo_is_model.
 Print Assumptions C12_translated_SkipTo_spec.
+Print Assumptions C12_translated_Sort_is_model.
+Print Assumptions C12_translated_Sort_spec.
